@@ -29,6 +29,20 @@ func checkC09(c *Ctx, r *Report) {
 		fired := c02DispatcherAs(c, r, fn, name == "ParseTCPRequest", "R9.4")
 		_ = fired
 	}
+	// R9.5: symmetry also for requests that did not come out of a constructor (a decoded request,
+	// transaction id 0): the header the encoder writes is the struct's own for any contents
+	{
+		reqs := requestTypes(c, "packet")
+		for _, m := range bytesMethods(c, "packet") {
+			tn := m.Signature.Recv().Type().(*types.Named)
+			if reqs[tn] && hasMBAP(tn) {
+				r.instance("R9.5", 1)
+				r.funcs[fnID(m)] = true
+				c01ConstProtocol(c, r, "R9.5", m)
+			}
+		}
+		r.floor("R9.5", 10)
+	}
 	r.assumption("requests are those the constructors return (success state), further restricted to specification-legal quantities for the round trip")
 	r.assumption("CRC16 uninterpreted; slice lengths below 2^31; int is 64 bits wide")
 }
